@@ -877,6 +877,11 @@ func runC18(r *Run) error {
 		}}}
 		start = died + 1
 	}
+	if r.Replay == "" {
+		if err := c18ConstructorCtxEnded(r); err != nil {
+			return err
+		}
+	}
 	// assemble in plan order
 	for i := range plan {
 		res := results[i]
@@ -3599,5 +3604,96 @@ func c18RealNet(r *Run, sp c18Spec, out *c18Result) error {
 	var _ iface.Store = st0
 	out.addClose(sp, whenRealNet, len(classes), false, leaks, classes, msgs, map[string]interface{}{"type": sp.Type, "replicated_before_close": replicated,
 		"note": "real pubsubcoreapi + oneonone on two mock nodes; store close, then both instance closes"})
+	return nil
+}
+
+// c18ConstructorCtxEnded: the context an instance was constructed with has ended (the
+// application cancelled it, or it was a context with a deadline) before Close is called.
+// Close must still close everything: the instance's stores refuse writes afterwards and the
+// directory can be opened again, with all acknowledged entries.  Runs in the parent process;
+// Close is given a bounded wait.
+func c18ConstructorCtxEnded(r *Run) error {
+	env, err := sharedEnv()
+	if err != nil {
+		return err
+	}
+	defer closeEnv()
+	bg := context.Background()
+	for k := 0; k < 2; k++ {
+		idx := 9100 + k
+		label := fmt.Sprintf("ctxended%d", k)
+		dir := filepath.Join(env.Work, label)
+		pid := sim.PeerIDFor(label, idx)
+		ctx2, cancel := context.WithCancel(env.Ctx)
+		rep, err := env.NewReplicaCtx(ctx2, idx, label, dir, pid, nil)
+		if err != nil {
+			cancel()
+			return err
+		}
+		typ := []string{"eventlog", "keyvalue"}[k%2]
+		st, err := rep.Orbit.Create(bg, "db-"+label, typ, &orbitdb.CreateDBOptions{})
+		if err != nil {
+			cancel()
+			return err
+		}
+		addr := st.Address().String()
+		n := 3 + r.Rng.Intn(3)
+		write := func(i int) error {
+			switch x := st.(type) {
+			case iface.EventLogStore:
+				_, err := x.Add(bg, []byte(fmt.Sprintf("v%d", i)))
+				return err
+			case iface.KeyValueStore:
+				_, err := x.Put(bg, fmt.Sprintf("k%d", i), []byte(fmt.Sprintf("v%d", i)))
+				return err
+			}
+			return fmt.Errorf("store type")
+		}
+		for i := 0; i < n; i++ {
+			if err := write(i); err != nil {
+				cancel()
+				return err
+			}
+		}
+		cancel() // the constructor's context ends ...
+		time.Sleep(20 * time.Millisecond)
+		closed := make(chan error, 1)
+		go func() { closed <- rep.Orbit.Close() }() // ... and then the instance is closed
+		descr := map[string]interface{}{"kind": "ctx-ended", "type": typ, "entries": n}
+		select {
+		case cerr := <-closed:
+			if cerr != nil {
+				descr["close_error"] = cerr.Error()
+			}
+		case <-time.After(20 * time.Second):
+			r.AddDirect("close:constructor-context-ended:hang", "Close of an instance whose constructor context had ended did not return", descr)
+			continue
+		}
+		bad := ""
+		if werr := write(n); werr == nil {
+			bad = "a store of the closed instance still accepts writes"
+		}
+		rep2, err := env.NewReplicaOpts(idx, label, dir, pid, nil)
+		if err != nil {
+			bad += "; the directory cannot be opened again: " + err.Error()
+		} else {
+			st2, err := rep2.Orbit.Open(bg, addr, &orbitdb.CreateDBOptions{})
+			if err != nil {
+				bad += "; the database cannot be opened again: " + err.Error()
+			} else {
+				if err := st2.Load(bg, -1); err != nil {
+					bad += "; load failed: " + err.Error()
+				} else if got := st2.OpLog().Len(); got < n {
+					bad += fmt.Sprintf("; %d of %d acknowledged entries after reopening", got, n)
+				}
+			}
+			_ = rep2.Orbit.Close()
+		}
+		if bad != "" {
+			descr["what"] = bad
+			r.AddDirect("close:constructor-context-ended", "Close after the constructor context ended is not clean: "+bad, descr)
+		}
+		r.Count("close:constructor-context-ended:checked")
+	}
 	return nil
 }
